@@ -205,6 +205,60 @@ def record(fname, kind, opts, bck, phase, crash_at, debug, seed, tid):
     return rec.trace(tid, cfg), R.ticker.count
 
 
+class CrashOp(xitorch.LinearOperator):
+    """user-defined matrix-free operator holding a derived tensor; its products go through a Ticker (may raise at product k)"""
+
+    def __init__(self, mat0, ticker):
+        self.mat = mat0 * 1.0
+        super().__init__(shape=self.mat.shape, is_hermitian=True, dtype=self.mat.dtype, device=self.mat.device)
+        self._ticker = ticker
+
+    def _mv(self, x):
+        self._ticker.tick()
+        return torch.matmul(self.mat, x.unsqueeze(-1)).squeeze(-1)
+
+    def _getparamnames(self, prefix=""):
+        return [prefix + "mat"]
+
+
+def record_linop(which, method, phase, crash_at, seed, tid):
+    """solve / symeig on a user-defined operator whose k-th product raises"""
+    import xitorch.linalg
+    from vlib.problems import Ticker
+    g = torch.Generator().manual_seed(300 + seed)
+    Q, _ = torch.linalg.qr(torch.randn(4, 4, generator=g, dtype=torch.float64))
+    mat0 = ((Q * torch.linspace(1.0, 2.5, 4, dtype=torch.float64)) @ Q.T).requires_grad_()
+    B = torch.randn(4, 2, generator=g, dtype=torch.float64).requires_grad_()
+    tk = Ticker()
+    with warnings.catch_warnings():
+        warnings.simplefilter("ignore")
+        A = CrashOp(mat0, tk)
+    rec = Recorder([A])
+    tk.on_eval = rec.on_eval
+    tk.crash_at = crash_at
+    exc = None
+    with rec, warnings.catch_warnings():
+        warnings.simplefilter("ignore")
+        try:
+            if which == "solve":
+                out = xitorch.linalg.solve(A, B, method=method)
+            else:
+                ev, evec = xitorch.linalg.symeig(A, neig=2, method=method)
+                out = torch.cat([ev, (evec ** 2).reshape(-1)])
+            if phase >= 1:
+                g1 = torch.autograd.grad(out.sum(), [mat0], create_graph=(phase >= 2), allow_unused=True)
+            if phase >= 2 and g1[0] is not None:
+                torch.autograd.grad((g1[0] ** 2).sum(), [mat0], allow_unused=True)
+        except Exception as e:
+            exc = e
+        rec.final(exc)
+    if rec.errors:
+        raise Machinery("recorder failed: " + rec.errors[0])
+    cfg = {"f": which, "kind": "linop", "opts": {"method": method}, "bck": {}, "phase": phase, "k": crash_at or 0, "debug": False, "seed": seed,
+           "exc": type(exc).__name__ if exc is not None else ""}
+    return rec.trace(tid, cfg), tk.count
+
+
 def crash_traces(ctx, thorough):
     kinds = ["nn", "edit", "editnn", "mixed", "sib", "msib"]
     traces = []
@@ -234,6 +288,19 @@ def crash_traces(ctx, thorough):
                         for k in ks:
                             if 1 <= k <= K:
                                 add(fname, kind, opts, bck, phase, k)
+    # a LinearOperator product raises (solve / symeig on a user-defined operator)
+    for which, methods in (("solve", ("cg", "bicgstab") if not thorough else ("cg", "bicgstab", "gmres", "broyden1", "custom_exactsolve")),
+                           ("symeig", ("davidson",) if not thorough else ("davidson", "custom_exacteig"))):
+        for method in methods:
+            for phase in (0, 1, 2):
+                tid[0] += 1
+                tr, K = record_linop(which, method, phase, None, ctx.seed, tid[0])
+                traces.append(tr)
+                ks = range(1, K + 1) if thorough else sorted(set([1, 2, K // 3, K // 2, (2 * K) // 3, K - 1, K]))
+                for k in ks:
+                    if 1 <= k <= K:
+                        tid[0] += 1
+                        traces.append(record_linop(which, method, phase, k, ctx.seed, tid[0])[0])
     # debug mode: the parameter check of EditableModule methods substitutes copies while it probes the method
     for fname in ("rootfinder", "quad", "mcquad", "equilibrium", "minimize"):
         for kind in ("edit", "editnn", "mixed"):
@@ -247,6 +314,8 @@ def trace_key(t, ev):
     c = t["cfg"]
     if c["debug"]:
         return "trace/debug-probe/%s" % c["kind"]
+    if c["kind"] == "linop":
+        return "trace/linop/%s/%s/phase%d/%s" % (c["f"], c["opts"].get("method"), c["phase"], ev["a"] if ev else "?")
     if ev is not None and ev["a"] == "set" and any(e["a"] == "linuse" for e in t["ev"]):
         return "subst/jac-shares-belief-list"
     return "trace/%s/%s/phase%d/%s" % (c["f"], c["kind"], c["phase"], ev["a"] if ev else "?")
